@@ -103,6 +103,8 @@ func conf(work string) string {
 	sb.WriteString(rule(1, 126, "engonpermitreq", "allow:request,nolog"))
 	sb.WriteString(rule(1, 127, "engonblock", "pass,nolog,ctl:ruleEngine=On"))
 	sb.WriteString(rule(1, 128, "engonblock", "deny,status:403,log"))
+	// derived variables are read in both request phases of every transaction, so that whatever they cache is exercised
+	sb.WriteString("SecRule ARGS_COMBINED_SIZE|FILES_COMBINED_SIZE|QUERY_STRING|REQUEST_LINE|REQUEST_BASENAME|REQUEST_FILENAME|REQUEST_URI_RAW|&ARGS|&ARGS_NAMES|&REQUEST_HEADERS \"@rx .\" \"id:131,phase:1,pass,log,msg:'derived p1'\"\n")
 	sb.WriteString(rule(1, 198, "skip3,", "pass,nolog,skip:3"))
 	sb.WriteString(rule(1, 199, "skipafter,", "pass,nolog,skipAfter:ABSENT_MARKER"))
 	// ---- phase 2
@@ -111,6 +113,7 @@ func conf(work string) string {
 	sb.WriteString("SecRule REQUEST_BODY \"@rx .\" \"id:902,phase:2,pass,log,msg:'body'\"\n")
 	sb.WriteString("SecRule FILES \"@rx .\" \"id:903,phase:2,pass,log,msg:'files'\"\n")
 	sb.WriteString("SecRule TX:leak|TX:score|TX:1 \"@rx .\" \"id:904,phase:2,pass,log,msg:'tx residue'\"\n")
+	sb.WriteString("SecRule ARGS_COMBINED_SIZE|FILES_COMBINED_SIZE|REQBODY_PROCESSOR|&ARGS|&ARGS_POST|&FILES|&ARGS_NAMES \"@rx .\" \"id:905,phase:2,pass,log,msg:'derived p2'\"\n")
 	sb.WriteString(rule(2, 202, "deny2", "deny,status:403,log"))
 	sb.WriteString(rule(2, 298, "skip3p2", "pass,nolog,skip:3"))
 	// ---- phase 3
